@@ -2,3 +2,6 @@
 pub mod model;
 pub mod ops;
 pub mod universe;
+pub mod stress;
+#[cfg(not(feature = "full"))]
+pub mod miri_main;
